@@ -80,6 +80,14 @@ CHECKS.update({
         technique="Lean 4 proof + differential comparison of performed action sets on real runs"),
 })
 
+CHECKS.update({
+    "C16": dict(
+        category="proof",
+        text="Lean 4 character-level model of formatHeader/formatLogEntry, of entryRE + split + Decode (leftmost-first parser, scanner window as a parameter), of syncBuffer.Write/rotateFile/create and of gcOldFiles; theorems decode_format, decode_concat_partial (each entry together with its successor fits the window; the full statement is refuted by a decide-checked witness = the known finding), rotation_lossless, names_increasing, readback_is_tail, newest_message_survives, gc_keeps_newest, gc_prefix. Entry.Format / EntryDecoder, the real logger with small LogFileMaxSize in a scratch directory, and the GC daemon on fabricated directories are compared with the model and with the specification.",
+        note="Trusted: Lean kernel; Go's time for broken-down UTC time; bufio.Scanner's buffer growth abstracted to a window size; file system. One known finding (entries ending in the last bytes of the 64 KiB window).",
+        technique="Lean 4 proof (parser/printer round trip, rotation and GC invariants) + differential correspondence on the real logger"),
+})
+
 NOT_APPLICABLE = [
     {"property_id": "C14", "reason": "data-race freedom is a property of memory accesses under the Go memory model; no executable Lean model compared on values can exhibit an unsynchronised access (DESIGN.md 5/C14)"},
 ]
